@@ -204,7 +204,7 @@ class ExpandedTraceback:
         else:
             # print(frame.filename, self.student_files, frame.lineno)
             if frame.filename in self.student_files:
-                if frame.lineno - 1 < len(self.original_code_lines):
+                if frame.lineno - 1 < len(self.student_files[frame.filename]):
                     if IS_AT_LEAST_PYTHON_313:
                         frame._lines = self.student_files[frame.filename][frame.lineno - 1]
                     else:
